@@ -5,6 +5,8 @@ import Rl2tp.Props.C15
 import Rl2tp.Model.Errors
 import Rl2tp.Proofs.DataMsg
 import Rl2tp.Proofs.GenTables
+import Rl2tp.Proofs.GenKinds
+import Rl2tp.Proofs.GenBoundaries
 namespace Rl2tp.C20
 open C15 Text
 
@@ -356,5 +358,20 @@ theorem source_error_texts :
     (∀ row ∈ Gen.errorTexts, ∀ n ∈ [12, 20, 200],
       (GenTables.errOf row.1 n).map display = some (GenTables.sourceText row n)) ∧ Gen.errorTexts.length = 26 :=
   ⟨GenTables.error_texts_is_model, GenTables.error_texts_complete⟩
+
+/-- the number each kind's first guard reports (`IncompleteAVP(Self::ATTRIBUTE_TYPE)`) is, in the model, the source's
+    `ATTRIBUTE_TYPE` of that kind (re-read by bin/gentables on every run) -/
+theorem source_error_numbers :
+    ∀ r ∈ Gen.typeConstants, r.2.2.1 = 0 ∨
+      (decodeAvp (UInt16.ofNat r.1) : M Bytes DErr AVP) [] = .err (.incompleteAVP (UInt16.ofNat r.1)) [] :=
+  GenKinds.guard_reports_own_number
+
+/-- which payload lengths each kind reports as `IncompleteAVP` (rather than by a later, more specific error) is, in the
+    model, what the source's first guards say: all 39 kinds, below the least length yes, at it no -/
+theorem source_incomplete_boundaries :
+    (∀ r ∈ Gen.typeConstants,
+      (∀ n ∈ List.range r.2.2.1, GenGuards.refusedAsIncomplete (GenGuards.numberOf r.2.1) n = true) ∧
+      GenGuards.refusedAsIncomplete (GenGuards.numberOf r.2.1) r.2.2.1 = false) ∧ Gen.typeConstants.length = 39 :=
+  ⟨GenBoundaries.min_lengths_is_model, GenBoundaries.min_lengths_complete⟩
 
 end Rl2tp.C20
